@@ -21,7 +21,7 @@ class Harness:
     """one vh_dir process; request / response over pipes"""
 
     def __init__(self, vharness_path):
-        self.path = os.path.join(os.path.dirname(vharness_path), 'vh_dir')
+        self.path = vlib.need_bin('vh_dir')
         if not os.path.exists(self.path):
             raise vlib.BuildError('harness binary vh_dir missing: ' + self.path)
         self.start()
